@@ -459,6 +459,8 @@ class C15(Prop):
                      axes=[Axis(np.array(l, dtype=np.int64 if c.get("lkind", "i") == "i" else np.float64), n)
                            for l, n in zip(c["labels"], c["names"])])
         a.attrs["hist"] = ["h0"]
+        for k in c.get("nan", []):
+            a.values.flat[k % a.size] = np.nan
         how = c["how"]
         if how == "boolnd":
             b = a[a > 1]
@@ -533,6 +535,10 @@ class C15(Prop):
                     b.argmax(axis=0)
                 elif call == "interp":
                     b.interp_axis(np.array([1.5, 2.5]), axis=b.ndim - 1)
+                elif call.startswith("skipna_"):
+                    # reductions that skip missing values (masked-array fallback for any/all/ptp, nan-functions otherwise)
+                    _, fn, axs = call.split("_")
+                    getattr(b, fn)(axis=None if axs == "none" else (0 if axs == "0" else b.ndim - 1), skipna=True)
                 elif call == "copy_mutate":
                     # copy() is deep: whatever is changed through the copy (values, labels - of the level axes of a grouped
                     # axis too -, names, metadata, mutable metadata values) never shows in the original
@@ -586,7 +592,7 @@ class C15(Prop):
             yield self.gen_heap(rng, i)
         for i in range(150 if tier == "quick" else 4000):
             yield self.gen_ds(rng, i)
-        for i in range(120 if tier == "quick" else 3000):
+        for i in range(300 if tier == "quick" else 6000):
             # operands that are themselves results of library operations (N-d boolean read, flatten, newaxis, stack ...)
             rank = rng.choice([2, 2, 3])
             shape = [rng.choice([2, 3]) for _ in range(rank)]
@@ -597,8 +603,12 @@ class C15(Prop):
                    "calls": [rng.choice(["add", "radd", "add_self", "reshape_same", "reshape_t", "mean", "sum_axis0", "transpose",
                                          "copy", "sort_axis", "take0", "eq", "align", "stack_with", "to_dataset", "unflatten", "fillna",
                                          "percentile", "quantile", "quantile_last", "median", "cumsum", "diff", "argmax", "interp",
-                                         "copy_mutate", "copy_mutate", "setna_masks", "put_mask"])
-                             for _ in range(rng.randint(1, 3))], "seed": i}
+                                         "copy_mutate", "copy_mutate", "setna_masks", "put_mask"] +
+                                        ["skipna_%s_%s" % (f, ax) for f in ("any", "all", "ptp", "sum", "mean", "min", "max", "std",
+                                                                            "median", "prod", "cumsum", "argmin")
+                                         for ax in ("none", "0", "last")])
+                             for _ in range(rng.randint(1, 3))],
+                   "nan": [rng.randrange(0, 27) for _ in range(rng.choice([0, 1, 2, 3]))], "seed": i}
         import random as _r
         for pid in SWEEP:
             sub = self.sub(pid)
